@@ -1641,6 +1641,224 @@ fn restart_probe(a: &mut Vec<i128>) -> String {
 	format!("{} {}", bad, total)
 }
 
+/// restart_forward_probe: the middle node has two channels with the same upstream peer; an HTLC to be forwarded arrives
+/// over the first and a payment to the node itself over the second, both with HTLC id 0; the ChannelManager is written
+/// while both are queued, the first is then forwarded (the downstream monitor is persisted) and the node restarts from
+/// the stale manager: the downstream channel is closed from its monitor, the forwarded HTLC is not forwarded again, and
+/// the unrelated payment still becomes claimable and can be claimed. The test utilities assert every step; output `1`.
+fn restart_forward_probe(_a: &mut Vec<i128>) -> String {
+	use lightning::events::{ClosureReason, Event, HTLCHandlingFailureType};
+	use lightning::ln::channelmanager::PaymentId;
+	use lightning::ln::msgs::{BaseMessageHandler, ChannelMessageHandler, MessageSendEvent};
+	use lightning::ln::outbound_payment::RecipientOnionFields;
+	use lightning::util::config::HTLCInterceptionFlags;
+	use lightning::util::ser::Writeable;
+
+	// B has two channels with A and one with C. Two HTLCs arrive from A, each the first HTLC
+	// (`htlc_id` 0) on its channel: one to be forwarded to C, one a payment to B itself. The
+	// `ChannelManager` is written while both sit in the pending-forwards queue; B then forwards
+	// the first to C (the B<->C `ChannelMonitor` is persisted) and crashes.
+	//
+	// On restart the B<->C channel is force-closed from its monitor and the HTLC it already holds
+	// must not be forwarded again, but the unrelated payment to B must still be processed.
+	let chanmon_cfgs = create_chanmon_cfgs(3);
+	let node_cfgs = create_node_cfgs(3, &chanmon_cfgs);
+	let persister;
+	let new_chain_monitor;
+	let node_chanmgrs = create_node_chanmgrs(3, &node_cfgs, &[None, None, None]);
+	let nodes_1_deserialized;
+	let mut nodes = create_network(3, &node_cfgs, &node_chanmgrs);
+
+	let node_a_id = nodes[0].node.get_our_node_id();
+	let node_b_id = nodes[1].node.get_our_node_id();
+	let node_c_id = nodes[2].node.get_our_node_id();
+
+	let chan_ab_1 = create_announced_chan_between_nodes(&nodes, 0, 1);
+	let chan_ab_2 = create_announced_chan_between_nodes(&nodes, 0, 1);
+	let chan_bc = create_announced_chan_between_nodes(&nodes, 1, 2);
+	let (chan_id_ab_1, chan_id_ab_2, chan_id_bc) = (chan_ab_1.2, chan_ab_2.2, chan_bc.2);
+
+	// HTLC 1: A -> B -> C over the first A<->B channel.
+	let (mut route_1, hash_1, _preimage_1, secret_1) =
+		lightning::get_route_and_payment_hash!(nodes[0], nodes[2], 1_000_000);
+	route_1.paths[0].hops[0].short_channel_id = chan_ab_1.0.contents.short_channel_id;
+	nodes[0].node.send_payment_with_route(route_1, hash_1,
+		RecipientOnionFields::secret_only(secret_1, 1_000_000), PaymentId(hash_1.0)).unwrap();
+	check_added_monitors(&nodes[0], 1);
+	let send_1 = SendEvent::from_node(&nodes[0]);
+	assert_eq!(send_1.msgs[0].channel_id, chan_id_ab_1);
+	assert_eq!(send_1.msgs[0].htlc_id, 0);
+	nodes[1].node.handle_update_add_htlc(node_a_id, &send_1.msgs[0]);
+	do_commitment_signed_dance(&nodes[1], &nodes[0], &send_1.commitment_msg, false, false);
+
+	// HTLC 2: A -> B over the second A<->B channel.
+	let (mut route_2, hash_2, preimage_2, secret_2) =
+		lightning::get_route_and_payment_hash!(nodes[0], nodes[1], 2_000_000);
+	route_2.paths[0].hops[0].short_channel_id = chan_ab_2.0.contents.short_channel_id;
+	nodes[0].node.send_payment_with_route(route_2, hash_2,
+		RecipientOnionFields::secret_only(secret_2, 2_000_000), PaymentId(hash_2.0)).unwrap();
+	check_added_monitors(&nodes[0], 1);
+	let send_2 = SendEvent::from_node(&nodes[0]);
+	assert_eq!(send_2.msgs[0].channel_id, chan_id_ab_2);
+	assert_eq!(send_2.msgs[0].htlc_id, 0);
+	nodes[1].node.handle_update_add_htlc(node_a_id, &send_2.msgs[0]);
+	do_commitment_signed_dance(&nodes[1], &nodes[0], &send_2.commitment_msg, false, false);
+
+	// Both HTLCs get decoded and queued, and the `ChannelManager` is written.
+	nodes[1].node.test_process_pending_update_add_htlcs();
+	let node_b_encoded = nodes[1].node.encode();
+
+	// B forwards HTLC 1 to C, persisting the B<->C monitor, and makes HTLC 2 claimable.
+	nodes[1].node.process_pending_htlc_forwards();
+	check_added_monitors(&nodes[1], 1);
+	let events = nodes[1].node.get_and_clear_pending_events();
+	assert!(events.iter().any(|ev| matches!(ev,
+		Event::PaymentClaimable { payment_hash, .. } if *payment_hash == hash_2)));
+	let _ = nodes[1].node.get_and_clear_pending_msg_events();
+
+	// Crash, and restart from the stale manager and the current monitors.
+	let mon_ab_1 = lightning::get_monitor!(nodes[1], chan_id_ab_1).encode();
+	let mon_ab_2 = lightning::get_monitor!(nodes[1], chan_id_ab_2).encode();
+	let mon_bc = lightning::get_monitor!(nodes[1], chan_id_bc).encode();
+	lightning::reload_node!(nodes[1], node_b_encoded, &[&mon_ab_1, &mon_ab_2, &mon_bc], persister,
+		new_chain_monitor, nodes_1_deserialized);
+	nodes[0].node.peer_disconnected(node_b_id);
+	nodes[2].node.peer_disconnected(node_b_id);
+
+	check_closed_event(&nodes[1], 1, ClosureReason::OutdatedChannelManager, &[node_c_id], 100000);
+	check_added_monitors(&nodes[1], 1);
+
+	// HTLC 2 is still committed in the (live) second A<->B channel and nothing else tracks it, so
+	// it has to come out of the restored pending-forwards queue.
+	nodes[1].node.process_pending_htlc_forwards();
+	let events = nodes[1].node.get_and_clear_pending_events();
+	assert!(
+		events.iter().any(|ev| matches!(ev,
+			Event::PaymentClaimable { payment_hash, .. } if *payment_hash == hash_2)),
+		"The payment to B over the second A<->B channel was dropped on restart, events: {:?}", events
+	);
+	// HTLC 1 must not have been forwarded a second time.
+	assert!(nodes[1].node.get_and_clear_pending_msg_events().iter().all(|ev|
+		!matches!(ev, MessageSendEvent::UpdateHTLCs { .. })));
+
+	// And it can be claimed once A reconnects.
+	let mut reconnect_args = ReconnectArgs::new(&nodes[0], &nodes[1]);
+	reconnect_args.send_channel_ready = (false, false);
+	reconnect_nodes(reconnect_args);
+	nodes[1].node.claim_funds(preimage_2);
+	check_added_monitors(&nodes[1], 1);
+	lightning::expect_payment_claimed!(nodes[1], hash_2, 2_000_000);
+	let mut updates = get_htlc_update_msgs(&nodes[1], &node_a_id);
+	nodes[0].node.handle_update_fulfill_htlc(node_b_id, updates.update_fulfill_htlcs.remove(0));
+	do_commitment_signed_dance(&nodes[0], &nodes[1], &updates.commitment_signed, false, false);
+	lightning::expect_payment_sent!(nodes[0], preimage_2);
+
+	nodes[1].tx_broadcaster.txn_broadcasted.lock().unwrap().clear();
+
+	for n in nodes.iter() {
+		n.node.get_and_clear_pending_msg_events();
+		n.node.get_and_clear_pending_events();
+		n.chain_monitor.added_monitors.lock().unwrap().clear();
+		n.tx_broadcaster.txn_broadcast();
+	}
+	core::mem::forget(nodes);
+	String::from("1")
+}
+
+/// restart_intercept_probe: a node holds two intercepted HTLCs when its ChannelManager is written - the event for the
+/// first was already handed to the user, the one for the second is still queued - and restarts: both must be announced
+/// (again), and both can then be failed back. Output `1`.
+fn restart_intercept_probe(_a: &mut Vec<i128>) -> String {
+	use lightning::events::{ClosureReason, Event, HTLCHandlingFailureType};
+	use lightning::ln::channelmanager::PaymentId;
+	use lightning::ln::msgs::{BaseMessageHandler, ChannelMessageHandler, MessageSendEvent};
+	use lightning::ln::outbound_payment::RecipientOnionFields;
+	use lightning::util::config::HTLCInterceptionFlags;
+	use lightning::util::ser::Writeable;
+
+	// `Event::HTLCIntercepted` is documented as persisted across restarts: as long as an intercepted
+	// HTLC has been neither forwarded nor failed, a restarted node has to tell the user about it
+	// again. Here B holds two intercepted HTLCs when its `ChannelManager` is written: the event for
+	// the first was already handed to the user (who crashed before acting on it), the event for the
+	// second is still queued.
+	let chanmon_cfgs = create_chanmon_cfgs(3);
+	let node_cfgs = create_node_cfgs(3, &chanmon_cfgs);
+	let persister;
+	let new_chain_monitor;
+	let mut intercept_forwards_config = test_legacy_channel_config();
+	intercept_forwards_config.htlc_interception_flags =
+		HTLCInterceptionFlags::ToInterceptSCIDs as u8;
+	let node_chanmgrs =
+		create_node_chanmgrs(3, &node_cfgs, &[None, Some(intercept_forwards_config), None]);
+	let nodes_1_deserialized;
+	let mut nodes = create_network(3, &node_cfgs, &node_chanmgrs);
+
+	let node_a_id = nodes[0].node.get_our_node_id();
+	let node_b_id = nodes[1].node.get_our_node_id();
+
+	let chan_id_ab = create_announced_chan_between_nodes(&nodes, 0, 1).2;
+	let chan_id_bc = create_announced_chan_between_nodes(&nodes, 1, 2).2;
+	let intercept_scid = nodes[1].node.get_intercept_scid();
+
+	let mut intercept_ids = Vec::new();
+	for idx in 0..2 {
+		let (mut route, payment_hash, _, payment_secret) =
+			lightning::get_route_and_payment_hash!(nodes[0], nodes[2], 1_000_000);
+		route.paths[0].hops[1].short_channel_id = intercept_scid;
+		nodes[0].node.send_payment_with_route(route, payment_hash,
+			RecipientOnionFields::secret_only(payment_secret, 1_000_000), PaymentId(payment_hash.0)).unwrap();
+		check_added_monitors(&nodes[0], 1);
+		let payment_event = SendEvent::from_node(&nodes[0]);
+		nodes[1].node.handle_update_add_htlc(node_a_id, &payment_event.msgs[0]);
+		do_commitment_signed_dance(&nodes[1], &nodes[0], &payment_event.commitment_msg, false, false);
+		nodes[1].node.process_pending_htlc_forwards();
+		if idx == 0 {
+			// The user's handler sees the first event (and then does not get to act on it).
+			let events = nodes[1].node.get_and_clear_pending_events();
+			assert_eq!(events.len(), 1);
+			match events[0] {
+				Event::HTLCIntercepted { intercept_id, .. } => intercept_ids.push(intercept_id),
+				_ => panic!("Unexpected event {:?}", events[0]),
+			}
+		}
+	}
+
+	// The `ChannelManager` is written with the second `HTLCIntercepted` still queued, then we crash.
+	let node_b_encoded = nodes[1].node.encode();
+	let mon_ab = lightning::get_monitor!(nodes[1], chan_id_ab).encode();
+	let mon_bc = lightning::get_monitor!(nodes[1], chan_id_bc).encode();
+	lightning::reload_node!(nodes[1], node_b_encoded, &[&mon_ab, &mon_bc], persister, new_chain_monitor, nodes_1_deserialized);
+	nodes[0].node.peer_disconnected(node_b_id);
+	nodes[2].node.peer_disconnected(node_b_id);
+
+	let events = nodes[1].node.get_and_clear_pending_events();
+	let redelivered: Vec<_> = events.iter().filter_map(|ev| match ev {
+		Event::HTLCIntercepted { intercept_id, .. } => Some(*intercept_id),
+		_ => None,
+	}).collect();
+	assert_eq!(redelivered.len(), 2, "Expected both held HTLCs to be announced, got {:?}", events);
+	assert!(redelivered.contains(&intercept_ids[0]),
+		"The first intercepted HTLC is still held but was not re-delivered: {:?}", events);
+
+	// Both can now be resolved by the user.
+	for id in redelivered {
+		nodes[1].node.fail_intercepted_htlc(id).unwrap();
+	}
+	let fail_type = HTLCHandlingFailureType::InvalidForward { requested_forward_scid: intercept_scid };
+	expect_and_process_pending_htlcs_and_htlc_handling_failed(&nodes[1], &[fail_type.clone(), fail_type]);
+	nodes[1].node.get_and_clear_pending_msg_events();
+	nodes[0].node.get_and_clear_pending_msg_events();
+
+	for n in nodes.iter() {
+		n.node.get_and_clear_pending_msg_events();
+		n.node.get_and_clear_pending_events();
+		n.chain_monitor.added_monitors.lock().unwrap().clear();
+		n.tx_broadcaster.txn_broadcast();
+	}
+	core::mem::forget(nodes);
+	String::from("1")
+}
+
 /// restart_battery: restart_probe for both victims (mode 0) and the in-flight / held-back variants for the payer.
 /// Output: `<pairs that misbehaved or scenarios that broke> <total>`.
 fn restart_battery(_a: &mut Vec<i128>) -> String {
@@ -1649,6 +1867,13 @@ fn restart_battery(_a: &mut Vec<i128>) -> String {
 	for from in 0..12 {
 		runs.push(vec![0, 1, from]);
 		runs.push(vec![1, 1, from]);
+	}
+	for probe in [restart_forward_probe as fn(&mut Vec<i128>) -> String, restart_intercept_probe] {
+		total += 1;
+		match catch_unwind(AssertUnwindSafe(|| probe(&mut vec![]))) {
+			Ok(v) if v == "1" => {},
+			_ => bad += 1,
+		}
 	}
 	for mut run in runs {
 		match catch_unwind(AssertUnwindSafe(|| restart_probe(&mut run))) {
@@ -1789,6 +2014,256 @@ fn monitor_update_blocked_probe(_a: &mut Vec<i128>) -> String {
 	verdict
 }
 
+/// channel_reload_probe <scenario>: a node's ChannelManager is written while an update of its peer is only half way
+/// through, read back, reconnected, and the channel must carry on exactly as after a mere disconnection.
+/// 1: an update_add_htlc received without its commitment_signed (dropped on write; the peer re-sends it, the payment completes)
+/// 2: a fee update the peer has committed (update_fee + commitment_signed received, revoke_and_ack sent) while our own
+///    HTLC is in flight - it must survive the reload, the channel must not be closed, both sides end at the new feerate
+/// 3: as 2, without the reload (plain disconnection), as the reference
+/// The library's test utilities assert every step; a panic is a failure. Output `1`.
+fn channel_reload_probe(a: &mut Vec<i128>) -> String {
+	use lightning::events::Event;
+	use lightning::ln::channelmanager::PaymentId;
+	use lightning::ln::msgs::{BaseMessageHandler, ChannelMessageHandler, MessageSendEvent};
+	use lightning::ln::outbound_payment::RecipientOnionFields;
+	use lightning::util::ser::Writeable;
+	if a[0] == 1 {
+
+	// C12 demo: if we persist a `ChannelManager` after receiving an `update_add_htlc` but before the
+	// corresponding `commitment_signed`, the (uncommitted) HTLC is dropped on write, as if the peer
+	// had just disconnected. After reloading, the peer will re-send the very same `update_add_htlc`
+	// on reconnection, which we must accept exactly like the original (disconnected) node would.
+	let chanmon_cfgs = create_chanmon_cfgs(2);
+	let node_cfgs = create_node_cfgs(2, &chanmon_cfgs);
+	let persister;
+	let new_chain_monitor;
+	let node_chanmgrs = create_node_chanmgrs(2, &node_cfgs, &[None, None]);
+	let nodes_1_deserialized;
+	let mut nodes = create_network(2, &node_cfgs, &node_chanmgrs);
+
+	let node_a_id = nodes[0].node.get_our_node_id();
+	let node_b_id = nodes[1].node.get_our_node_id();
+
+	let chan_id = create_announced_chan_between_nodes(&nodes, 0, 1).2;
+
+	// Complete one payment first so that the channel is past its initial state (and HTLC ids are
+	// not all-zero).
+	send_payment(&nodes[0], &[&nodes[1]], 500_000);
+
+	let (route, payment_hash, payment_preimage, payment_secret) =
+		lightning::get_route_and_payment_hash!(nodes[0], nodes[1], 1_000_000);
+	let onion = RecipientOnionFields::secret_only(payment_secret, 1_000_000);
+	nodes[0].node.send_payment_with_route(route, payment_hash, onion, PaymentId(payment_hash.0)).unwrap();
+	check_added_monitors(&nodes[0], 1);
+	let mut events = nodes[0].node.get_and_clear_pending_msg_events();
+	assert_eq!(events.len(), 1);
+	let payment_event = SendEvent::from_event(events.remove(0));
+
+	// Deliver only the `update_add_htlc`, not the `commitment_signed`.
+	nodes[1].node.handle_update_add_htlc(node_a_id, &payment_event.msgs[0]);
+	assert!(nodes[1].node.get_and_clear_pending_msg_events().is_empty());
+
+	// Persist nodes[1] in this intermediate state and reload it.
+	let node_b_ser = nodes[1].node.encode();
+	let mon_ser = lightning::get_monitor!(nodes[1], chan_id).encode();
+	lightning::reload_node!(nodes[1], &node_b_ser, &[&mon_ser], persister, new_chain_monitor, nodes_1_deserialized);
+
+	// On startup the (already handled) `PaymentClaimed` for the first payment is replayed from the
+	// `ChannelMonitor`; handle it so that it doesn't hold up further monitor updates.
+	let replayed_events = nodes[1].node.get_and_clear_pending_events();
+	assert_eq!(replayed_events.len(), 1);
+	assert!(matches!(replayed_events[0], Event::PaymentClaimed { amount_msat: 500_000, .. }));
+
+	// The reloaded node should report exactly the same channel as before, with no pending HTLCs.
+	{
+		let chans = nodes[1].node.list_channels();
+		assert_eq!(chans.len(), 1);
+		assert!(chans[0].pending_inbound_htlcs.is_empty());
+	}
+
+	// On reconnection nodes[0] re-sends the `update_add_htlc` + `commitment_signed`, and the payment
+	// completes normally.
+	nodes[0].node.peer_disconnected(node_b_id);
+	let mut reconnect_args = ReconnectArgs::new(&nodes[0], &nodes[1]);
+	reconnect_args.pending_htlc_adds.1 = 1;
+	reconnect_nodes(reconnect_args);
+
+	expect_and_process_pending_htlcs(&nodes[1], false);
+	lightning::expect_payment_claimable!(nodes[1], payment_hash, payment_secret, 1_000_000);
+	claim_payment(&nodes[0], &[&nodes[1]], payment_preimage);
+
+		for n in nodes.iter() {
+			n.node.get_and_clear_pending_msg_events();
+			n.node.get_and_clear_pending_events();
+			n.chain_monitor.added_monitors.lock().unwrap().clear();
+		}
+		core::mem::forget(nodes);
+	} else {
+		let reload = a[0] == 2;
+		let reest = |n: &Node| -> Vec<lightning::ln::msgs::ChannelReestablish> {
+			n.node.get_and_clear_pending_msg_events().into_iter().filter_map(|e| if let MessageSendEvent::SendChannelReestablish { msg, .. } = e { Some(msg) } else { None }).collect()
+		};
+		// what a node sends in answer to channel_reestablish: (_, revoke_and_ack, update batch, the batch came first)
+		let resp = |n: &Node| -> ((), Option<lightning::ln::msgs::RevokeAndACK>, Option<lightning::ln::msgs::CommitmentUpdate>, bool) {
+			let (mut raa, mut cu, mut cu_first) = (None, None, true);
+			for e in n.node.get_and_clear_pending_msg_events() {
+				match e {
+					MessageSendEvent::SendRevokeAndACK { msg, .. } => { if cu.is_none() { cu_first = false; } raa = Some(msg); },
+					MessageSendEvent::UpdateHTLCs { updates, .. } => cu = Some(updates),
+					_ => {},
+				}
+			}
+			((), raa, cu, cu_first)
+		};
+
+	// C12 demo: the non-funder (nodes[1]) has received `update_fee` + `commitment_signed` from the
+	// funder and replied with a `revoke_and_ack`, but cannot yet send its own `commitment_signed`
+	// as it is still waiting on the funder's `revoke_and_ack` for an HTLC it sent at the same time
+	// (the two updates crossed on the wire). The fee update is thus irrevocably committed in
+	// nodes[1]'s own commitment transaction but not yet "announced" back. If nodes[1] is written
+	// and read back in exactly this state it must continue exactly like a node which has merely
+	// been disconnected.
+	let chanmon_cfgs = create_chanmon_cfgs(2);
+	let node_cfgs = create_node_cfgs(2, &chanmon_cfgs);
+	let persister;
+	let new_chain_monitor;
+	let node_chanmgrs = create_node_chanmgrs(2, &node_cfgs, &[None, None]);
+	let nodes_1_deserialized;
+	let mut nodes = create_network(2, &node_cfgs, &node_chanmgrs);
+	let node_a_id = nodes[0].node.get_our_node_id();
+	let node_b_id = nodes[1].node.get_our_node_id();
+
+	// nodes[0] is the funder (and thus the one sending `update_fee`s).
+	let chan_id = create_announced_chan_between_nodes_with_value(&nodes, 0, 1, 1_000_000, 400_000_000).2;
+
+	// nodes[1] sends an HTLC to nodes[0] (update_add_htlc + commitment_signed)...
+	let (route, payment_hash, payment_preimage, payment_secret) =
+		lightning::get_route_and_payment_hash!(nodes[1], nodes[0], 1_000_000);
+	let onion = RecipientOnionFields::secret_only(payment_secret, 1_000_000);
+	nodes[1].node.send_payment_with_route(route, payment_hash, onion, PaymentId(payment_hash.0)).unwrap();
+	check_added_monitors(&nodes[1], 1);
+	let _lost_bs_htlc_update = get_htlc_update_msgs(&nodes[1], &node_a_id);
+
+	// ...while, at the same time, nodes[0] sends a fee update.
+	{
+		let mut feerate_lock = chanmon_cfgs[0].fee_estimator.sat_per_kw.lock().unwrap();
+		*feerate_lock *= 2;
+	}
+	nodes[0].node.timer_tick_occurred();
+	check_added_monitors(&nodes[0], 1);
+	let as_fee_update = get_htlc_update_msgs(&nodes[0], &node_b_id);
+	assert!(as_fee_update.update_fee.is_some());
+
+	// nodes[1] gets the fee update and responds with an RAA only - it is still waiting on an RAA
+	// from nodes[0] and thus can't send a new commitment_signed.
+	nodes[1].node.handle_update_fee(node_a_id, as_fee_update.update_fee.as_ref().unwrap());
+	nodes[1].node.handle_commitment_signed_batch_test(node_a_id, &as_fee_update.commitment_signed);
+	check_added_monitors(&nodes[1], 1);
+	let _lost_bs_raa = lightning::get_event_msg!(nodes[1], MessageSendEvent::SendRevokeAndACK, node_a_id);
+
+	// All of nodes[1]'s messages are lost as the peers disconnect. nodes[1] restarts.
+	if reload {
+		let chan_1_monitor_serialized = lightning::get_monitor!(nodes[1], chan_id).encode();
+		lightning::reload_node!(nodes[1], nodes[1].node.encode(), &[&chan_1_monitor_serialized], persister, new_chain_monitor, nodes_1_deserialized);
+	} else {
+		nodes[1].node.peer_disconnected(node_a_id);
+	}
+	nodes[0].node.peer_disconnected(node_b_id);
+
+	connect_nodes(&nodes[0], &nodes[1]);
+	let reestablish_a = reest(&nodes[0]);
+	let reestablish_b = reest(&nodes[1]);
+	assert_eq!(reestablish_a.len(), 1);
+	assert_eq!(reestablish_b.len(), 1);
+	nodes[0].node.handle_channel_reestablish(node_b_id, &reestablish_b[0]);
+	let as_resp = resp(&nodes[0]);
+	nodes[1].node.handle_channel_reestablish(node_a_id, &reestablish_a[0]);
+	let bs_resp = resp(&nodes[1]);
+
+	// nodes[1] received everything nodes[0] sent, nodes[0] nothing of what nodes[1] sent.
+	assert!(as_resp.1.is_none() && as_resp.2.is_none());
+	let bs_raa = bs_resp.1.expect("nodes[1] must re-send its RAA");
+	let bs_htlc_update = bs_resp.2.expect("nodes[1] must re-send its HTLC");
+	assert!(bs_resp.3);
+	assert_eq!(bs_htlc_update.update_add_htlcs.len(), 1);
+
+	// nodes[0] processes nodes[1]'s HTLC + commitment_signed, then the RAA for the fee update.
+	nodes[0].node.handle_update_add_htlc(node_b_id, &bs_htlc_update.update_add_htlcs[0]);
+	nodes[0].node.handle_commitment_signed_batch_test(node_b_id, &bs_htlc_update.commitment_signed);
+	check_added_monitors(&nodes[0], 1);
+	let as_raa = lightning::get_event_msg!(nodes[0], MessageSendEvent::SendRevokeAndACK, node_b_id);
+	nodes[0].node.handle_revoke_and_ack(node_b_id, &bs_raa);
+	check_added_monitors(&nodes[0], 1);
+	let as_cs = get_htlc_update_msgs(&nodes[0], &node_b_id);
+	assert!(as_cs.update_add_htlcs.is_empty() && as_cs.update_fee.is_none());
+
+	// nodes[1] gets the RAA, which finally lets it commit the fee update in nodes[0]'s commitment
+	// transaction as well.
+	nodes[1].node.handle_revoke_and_ack(node_a_id, &as_raa);
+	check_added_monitors(&nodes[1], 1);
+	let bs_msg_events = nodes[1].node.get_and_clear_pending_msg_events();
+
+	// nodes[0]'s new commitment_signed uses the new feerate. nodes[1] must accept it rather than
+	// force-closing the channel.
+	nodes[1].node.handle_commitment_signed_batch_test(node_a_id, &as_cs.commitment_signed);
+	assert_eq!(
+		nodes[1].node.list_usable_channels().len(), 1,
+		"nodes[1] rejected nodes[0]'s commitment_signed and closed the channel"
+	);
+	check_added_monitors(&nodes[1], 1);
+	let bs_second_raa = lightning::get_event_msg!(nodes[1], MessageSendEvent::SendRevokeAndACK, node_a_id);
+
+	assert_eq!(bs_msg_events.len(), 1, "nodes[1] must send a commitment_signed for the fee update");
+	let bs_cs = match &bs_msg_events[0] {
+		MessageSendEvent::UpdateHTLCs { node_id, updates, .. } => {
+			assert_eq!(*node_id, node_a_id);
+			updates.clone()
+		},
+		_ => panic!("Unexpected event {:?}", bs_msg_events[0]),
+	};
+	assert!(bs_cs.update_add_htlcs.is_empty() && bs_cs.update_fee.is_none());
+
+	nodes[0].node.handle_commitment_signed_batch_test(node_b_id, &bs_cs.commitment_signed);
+	check_added_monitors(&nodes[0], 1);
+	let as_second_raa = lightning::get_event_msg!(nodes[0], MessageSendEvent::SendRevokeAndACK, node_b_id);
+	nodes[0].node.handle_revoke_and_ack(node_b_id, &bs_second_raa);
+	check_added_monitors(&nodes[0], 1);
+	nodes[1].node.handle_revoke_and_ack(node_a_id, &as_second_raa);
+	check_added_monitors(&nodes[1], 1);
+
+	// Both sides agree on the new feerate and the HTLC goes through.
+	let feerate_a = nodes[0].node.list_channels()[0].feerate_sat_per_1000_weight.unwrap();
+	let feerate_b = nodes[1].node.list_channels()[0].feerate_sat_per_1000_weight.unwrap();
+	assert_eq!(feerate_a, feerate_b);
+	assert_eq!(feerate_a, as_fee_update.update_fee.as_ref().unwrap().feerate_per_kw);
+
+	expect_and_process_pending_htlcs(&nodes[0], false);
+	lightning::expect_payment_claimable!(nodes[0], payment_hash, payment_secret, 1_000_000);
+	claim_payment(&nodes[1], &[&nodes[0]], payment_preimage);
+
+		for n in nodes.iter() {
+			n.node.get_and_clear_pending_msg_events();
+			n.node.get_and_clear_pending_events();
+			n.chain_monitor.added_monitors.lock().unwrap().clear();
+		}
+		core::mem::forget(nodes);
+	}
+	String::from("1")
+}
+
+/// channel_reload_battery: scenarios 1-3 of channel_reload_probe. Output `<failed> <run>`.
+fn channel_reload_battery(_a: &mut Vec<i128>) -> String {
+	let (mut bad, mut total) = (0u32, 0u32);
+	for sc in 1i128..=3 {
+		total += 1;
+		match catch_unwind(AssertUnwindSafe(|| channel_reload_probe(&mut vec![sc]))) {
+			Ok(v) if v == "1" => {},
+			_ => bad += 1,
+		}
+	}
+	format!("{} {}", bad, total)
+}
+
 /// monitor_update_battery: scenarios 1-3 of monitor_update_probe, monitor_update_deferred_probe and monitor_update_blocked_probe. Output: `<scenarios that failed or panicked> <scenarios run>`.
 fn monitor_update_battery(_a: &mut Vec<i128>) -> String {
 	let (mut bad, mut total) = (0u32, 0u32);
@@ -1831,6 +2306,10 @@ fn main() {
 			"payment_outcome_battery" => payment_outcome_battery(&mut args),
 			"mpp_outcome_probe" => mpp_outcome_probe(&mut args),
 			"payment_restart_probe" => payment_restart_probe(&mut args),
+			"restart_forward_probe" => restart_forward_probe(&mut args),
+			"restart_intercept_probe" => restart_intercept_probe(&mut args),
+			"channel_reload_probe" => channel_reload_probe(&mut args),
+			"channel_reload_battery" => channel_reload_battery(&mut args),
 			"monitor_update_deferred_probe" => monitor_update_deferred_probe(&mut args),
 			"monitor_update_blocked_probe" => monitor_update_blocked_probe(&mut args),
 			"restart_probe" => restart_probe(&mut args),
